@@ -340,6 +340,23 @@ H("state", "c16_leader_ends_when_a_follower_refuses", needs_segment=["sc_leader_
   what="leader: a refused validate round -> ValidateFailed to the schedule caller, Break, no permit, no run requested, nothing sent", bounds="validate round fails; run round arbitrary", functions=["state::PolicyState::schedule (leader branch behind the creation of the validate futures)"], panic_prop="C16", stubs=[RS], est_gb=3)
 
 
+# C14: the other states of a scheduled policy (constructors generated from the enum's field lists)
+_SC_STATES = [("awaiting_validation", "AwaitingValidation"), ("validated", "Validated"), ("sending_consts", "SendingConsts"), ("sending_consts_completed", "SendingConstsCompleted"), ("running", "Running")]
+_SC_QUICK = {"c14_schedule_duplicate_in_validated", "c14_schedule_duplicate_in_running", "c14_validate_stray_in_validated", "c14_consts_stray_in_awaiting_validation"}
+for _low, _var in _SC_STATES:
+    _n = f"c14_schedule_duplicate_in_{_low}"
+    H("state", _n, needs_segment=["sc_schedule", f"sc_{_low}_ctor"], tier="quick" if _n in _SC_QUICK else "thorough",
+      what=f"schedule() while {_var}, as leader and as follower: InvalidState on the caller's reply channel only, same state, endpoints untouched, Continue", bounds=f"party < 3, leader/follower symbolic, state {_var} (empty program, two peers' endpoints)", functions=["state::PolicyState::schedule (after the type check)"], panic_prop="C14", stubs=[RS], est_gb=3)
+    if _low != "awaiting_validation":
+        _n = f"c14_validate_stray_in_{_low}"
+        H("state", _n, needs_segment=["sc_validate", f"sc_{_low}_ctor"], tier="quick" if _n in _SC_QUICK else "thorough",
+          what=f"validate() while {_var}: InvalidState on the caller's reply channel only, same state, endpoints untouched, Continue", bounds=f"any leader index, state {_var}", functions=["state::PolicyState::validate (whole body)"], panic_prop="C14", stubs=[RS], est_gb=3)
+for _low, _var in (("awaiting_validation", "AwaitingValidation"), ("running", "Running")):
+    _n = f"c14_consts_stray_in_{_low}"
+    H("state", _n, needs_segment=["sc_consts", f"sc_{_low}_ctor"], tier="quick" if _n in _SC_QUICK else "thorough",
+      what=f"consts() while {_var}: InvalidState, nothing inserted, same state, endpoints untouched, pending callers unanswered, Continue", bounds=f"any sender index, state {_var}", functions=["state::PolicyState::consts (whole body)"], panic_prop="C14", stubs=[RS], est_gb=4)
+
+
 def by_prefix(*prefixes, tier=None):
     return [h for n, h in ALL.items() if any(n.startswith(p) for p in prefixes) and (tier is None or h["tier"] == tier)]
 
@@ -495,13 +512,13 @@ PROPS["C20"] = dict(
 # Properties not claimed, with the one-line reason (DESIGN.md §3).
 PROPS["C14"] = dict(
     level="model_checking",
-    level_text="Bounded model checking of the decision points of the server-core state machine at which a stray command is judged: msg() up to its forwarding send, schedule() after the type check, validate() and consts() - the statement runs are cut out of the async handlers on every run and executed on the real PolicyStateKind for the states a test cannot pin down (Init, ValidateRequested, Executing): the command is answered with an InvalidState / Unreachable error, the state and the MPC channel endpoints are left as they are, and the handler returns Continue without panicking.",
-    level_note="Partial: one command against one state (inductive step), states Init / ValidateRequested / Executing. Not covered: which states run() sends into its invalid-state arm (only that arm's body is cut: the other arms contain async closures), states that hold a Garble TypedProgram beyond the empty program, the HTTP route, and that the computation's OUTPUT is unchanged (a whole-run statement; the check shows state, endpoints and control flow are unchanged). " + SEG,
+    level_text="Bounded model checking of the decision points of the server-core state machine at which a stray command is judged: msg() up to its forwarding send, schedule() after the type check, validate() and consts() - the statement runs are cut out of the async handlers on every run and executed on the real PolicyStateKind in every state in which the command is invalid (Init, ValidateRequested, AwaitingValidation, Validated, SendingConsts, SendingConstsCompleted, Running, Executing; quick tier: a subset): the command is answered with an InvalidState / Unreachable error, the state and the MPC channel endpoints are left as they are, and the handler returns Continue without panicking.",
+    level_note="Partial: one command against one state (inductive step; states holding a policy use the empty program and two peers). Not covered: which states run() sends into its invalid-state arm (only that arm's body is cut: the other arms contain async closures), states that hold a Garble TypedProgram beyond the empty program, the HTTP route, and that the computation's OUTPUT is unchanged (a whole-run statement; the check shows state, endpoints and control flow are unchanged). " + SEG,
     explanation="Kani/CBMC on statement runs cut from state.rs (msg, schedule, validate, consts).",
-    outside="states Validated/SendingConsts/SendingConstsCompleted/Running as pre-state; interleavings of several commands; run().",
+    outside="interleavings of several commands; the dispatch of run(); non-empty programs / constants in the pre-state.",
     assumptions=[FMT, TRACING, RS, ANS, ENVST],
     harnesses=by_prefix("c14_"),
-    segments=["sc_msg_head", "sc_schedule", "sc_validate", "sc_consts", "sc_run_fallback", "sc_executing_ctor"],
+    segments=["sc_msg_head", "sc_schedule", "sc_validate", "sc_consts", "sc_run_fallback", "sc_executing_ctor", "sc_awaiting_validation_ctor", "sc_validated_ctor", "sc_sending_consts_ctor", "sc_sending_consts_completed_ctor", "sc_running_ctor"],
 )
 PROPS["C16"] = dict(
     level="model_checking",
